@@ -54,6 +54,7 @@ type ConnModel struct {
 	Stripped bool
 	Consumed int    // offset of the first byte not yet consumed by an earlier handler
 	Aborted  bool   // the client reset the connection: only prefix invariants apply
+	Stopped  bool   // a harness handler ended the chain (terminal recorder, or consume that hit the end of the stream)
 	WroteAll bool   // client finished writing and half-closed gracefully
 
 	// observations
@@ -65,6 +66,8 @@ type HandlerCall struct {
 	Handler string
 	Offset  int
 	At      time.Duration
+	Visible int // prefetched bytes visible when the handler started (markers only; -1 otherwise)
+	EvalSeq int // number of matcher evaluations recorded before this call
 }
 
 // Registry maps client address -> model.
@@ -190,6 +193,9 @@ type Consume struct {
 	K    int
 	Tag  string
 	Sig  string
+	// Visible: record (and verify) the prefetched bytes visible at entry.
+	Visible bool
+	Hist    *[]MatchEval
 	// StripPre: this marker runs right after a header-stripping handler: from
 	// here on the logical stream no longer contains the model's Pre bytes.
 	StripPre bool
@@ -215,9 +221,21 @@ func (c *Consume) Handle(cx *layer4.Connection, next layer4.Handler) error {
 		m.App = m.App[len(m.Pre):]
 	}
 	off := m.Consumed
-	m.HandlerCalls = append(m.HandlerCalls, HandlerCall{c.Name, off, c.E.S.Elapsed()})
+	hc := HandlerCall{Handler: c.Name, Offset: off, At: c.E.S.Elapsed(), Visible: -1}
+	if c.Hist != nil {
+		hc.EvalSeq = len(*c.Hist)
+	}
+	var vis []byte
+	if c.Visible {
+		vis = cx.MatchingBytes()
+		hc.Visible = len(vis)
+	}
+	m.HandlerCalls = append(m.HandlerCalls, hc)
 	ulk()
 	c.E.S.Tracef("H consume", c.Name, m.ID, off)
+	if len(vis) > 0 {
+		c.E.checkWindow(c.Tag, c.Name+"(visible)", m, off, vis, c.Sig)
+	}
 	buf := make([]byte, c.K)
 	n, err := io.ReadFull(cx, buf)
 	if n > 0 {
@@ -230,6 +248,7 @@ func (c *Consume) Handle(cx *layer4.Connection, next layer4.Handler) error {
 		// stream ended (or failed) before K bytes: nothing more to hand on
 		lk()
 		aborted := m.Aborted
+		m.Stopped = true
 		ulk()
 		if !aborted && (errors.Is(err, io.ErrUnexpectedEOF) || err == io.EOF) {
 			if off+n != len(m.App) {
@@ -278,6 +297,9 @@ func (r *Recorder) Handle(cx *layer4.Connection, next layer4.Handler) error {
 func (r *Recorder) Record(conn net.Conn, m *ConnModel, advance bool) *RecState {
 	lk()
 	st := &RecState{Name: r.Name, Start: m.Consumed}
+	if !r.Branch {
+		m.Stopped = true
+	}
 	if r.StartMark != "" {
 		for _, hc := range m.HandlerCalls {
 			if hc.Handler == r.StartMark {
@@ -286,7 +308,7 @@ func (r *Recorder) Record(conn net.Conn, m *ConnModel, advance bool) *RecState {
 		}
 	}
 	m.Recorders = append(m.Recorders, st)
-	m.HandlerCalls = append(m.HandlerCalls, HandlerCall{r.Name, st.Start, r.E.S.Elapsed()})
+	m.HandlerCalls = append(m.HandlerCalls, HandlerCall{Handler: r.Name, Offset: st.Start, At: r.E.S.Elapsed(), Visible: -1})
 	ulk()
 	st.RemoteAt, st.LocalAt = conn.RemoteAddr().String(), conn.LocalAddr().String()
 	r.E.S.Tracef("H record", r.Name, m.ID, st.Start)
